@@ -214,7 +214,7 @@ class C03(RunSpec):
         p["leaf"] = _cycle(ALL_LEAVES, idx, 1)
         p["gscs"] = ["fevals", "evals", "melimit", "fevals"]
         p["levels"] = [2, 2, 3, 1]
-        if idx % 5 == 4:
+        if idx % 7 == 6:
             p = {"kind": "minimize", "dim": (2, 4), "budget": "maxfun"}
         return p
 
@@ -650,4 +650,25 @@ class C15(DirectSpec):
         n = self.sizes[tier]
         fl = [(f"class.{c}.{dr}", 1, "input class x direction") for c in CLASSES for dr in ("min", "max")]
         fl += [("K_equals_1", n // 100, ">=1% of cases with K=1"), ("converged_populations", n // 20, ">=5% converged")]
+        return fl
+
+
+@register
+class C13(DirectSpec):
+    prop = "C13"
+    module = "c13"
+    rule = (
+        "twin calls of every comparison-based component on (f, maximize) and (-f, minimize) with identical RNG state over generated populations "
+        "with and without ties, plus whole seeded run twins over engine mixes without SEA-family levels; distinct non-trivial = distinct "
+        "(component tie pattern) or (engine mix, mechanism) twins whose input had >=3 distinct fitness values"
+    )
+    sizes = {"quick": 2000, "thorough": 50000}
+    budgets = {"quick": 75.0, "thorough": 1200.0}
+    case_timeout = 90.0
+
+    def floors(self, tier):
+        comps = ["ordering", "topk", "select_new_population", "tournament", "DE", "DE_dither", "SHADE", "NBC", "DemeLimit", "LevelLimit", "R5S", "cutoff_sentinel"]
+        fl = [(f"component.{c}.{t}", 1, "component exercised") for c in comps for t in ("ties", "no_ties")]
+        fl += [(f"twin_engine.{e}", 1, "index-stable engine on a level of a run twin") for e in ("de", "shade", "cma", "cma_warm", "local", "lhs", "sobol")]
+        fl += [("run_twins", 20, "whole-run twins")]
         return fl
